@@ -11,7 +11,7 @@
 (* counts are unsigned literals.                                            *)
 (***************************************************************************)
 EXTENDS Naturals, Integers, Sequences, FiniteSets, TLC
-CONSTANT KIND                  \* "z" or "q"
+CONSTANT KIND                  \* "z", "q" or "f"
 ZLeaf == {<<"v", "a">>, <<"v", "b">>, <<"v", "c">>, <<"si", "-5">>, <<"si", "-8000000000000000">>, <<"si", "7fffffffffffffff">>, <<"ui", "7">>,
           <<"ui", "ffffffffffffffff">>, <<"dd", "3.0">>, <<"dd", "-2.5">>, <<"si", "-1">>}
 ZLeafS == {<<"v", "a">>, <<"v", "b">>, <<"si", "-5">>, <<"ui", "7">>, <<"dd", "-2.5">>}
@@ -43,7 +43,31 @@ D1Q == {t \in {<<op, x, y>> : op \in QArith, x \in QLeaf, y \in QLeaf} : IsClass
 D2Q == {<<op, s, z>> : op \in QArith, s \in D1Q, z \in QLeaf} \cup {<<op, z, s>> : op \in QArith, s \in D1Q, z \in QLeaf}
        \cup {<<"/", s, NZQ(z)>> : s \in D1Q, z \in {<<"v", "q">>, <<"v", "r">>}} \cup {<<u, s>> : u \in {"neg", "abs", "sgn"}, s \in D1Q}
        \cup {<<c, s, z>> : c \in {"<", "==", "cmp"}, s \in D1Q, z \in QLeaf}
-Trees == IF KIND = "z" THEN D1Z \cup Un1Z \cup D2Z ELSE D1Q \cup D2Q
+(* ---- mpf_class (KIND "f"): variables f, g, h carry DIFFERENT precisions (64, 128, 256 bits); f may be zero, so only g, h, non-zero built-in
+   numbers and |s| + 1 are divisors; sqrt is applied to abs(..); floor/ceil/trunc, comparisons, cmp and sgn at the root ---- *)
+FVar == {<<"v", "f">>, <<"v", "g">>, <<"v", "h">>}
+FBuiltin == {<<"si", "-5">>, <<"ui", "7">>, <<"dd", "2.5">>, <<"dd", "-0.75">>, <<"si", "-8000000000000000">>, <<"ui", "ffffffffffffffff">>}
+FLeaf == FVar \cup FBuiltin
+FLeafS == FVar \cup {<<"si", "-5">>, <<"ui", "7">>, <<"dd", "2.5">>}
+FArith == {"+", "-", "*"}
+FUn == {"neg", "abs", "floor", "ceil", "trunc"}
+NZF(t) == <<"+", <<"abs", t>>, <<"ui", "1">>>>
+FDivisorLeaf == {<<"v", "g">>, <<"v", "h">>, <<"si", "-5">>, <<"ui", "7">>, <<"dd", "2.5">>, <<"si", "-8000000000000000">>}
+D1F == {t \in {<<op, x, y>> : op \in FArith, x \in FLeaf, y \in FLeaf} : IsClass(t[2]) \/ IsClass(t[3])}
+       \cup {t \in {<<"/", x, y>> : x \in FLeaf, y \in FDivisorLeaf} : IsClass(t[2]) \/ IsClass(t[3])}
+D1FS == {t \in D1F : t[2] \in FLeafS /\ t[3] \in FLeafS}
+Un1F == {<<u, x>> : u \in FUn, x \in FVar \cup D1FS} \cup {<<"sqrt", <<"abs", x>>>> : x \in FVar \cup D1FS} \cup {<<"sgn", x>> : x \in D1FS}
+Un1FS == {<<u, x>> : u \in {"neg", "floor", "sqrt"}, x \in {<<"abs", <<"v", "g">>>>, <<"abs", <<"-", <<"v", "f">>, <<"v", "h">>>>>>}}
+FSub == {<<"+", <<"v", "f">>, <<"v", "g">>>>, <<"*", <<"v", "g">>, <<"v", "h">>>>, <<"/", <<"v", "f">>, <<"v", "h">>>>, <<"-", <<"v", "h">>, <<"dd", "2.5">>>>,
+         <<"*", <<"v", "f">>, <<"si", "-5">>>>, <<"/", <<"ui", "7">>, <<"v", "g">>>>, <<"-", <<"si", "-5">>, <<"v", "f">>>>, <<"/", <<"v", "g">>, <<"si", "-5">>>>,
+         <<"-", <<"v", "f">>, <<"v", "h">>>>} \cup Un1FS                                        \* sub-expressions used on both sides of a root operator
+D2F == {<<op, s, z>> : op \in FArith, s \in D1FS, z \in FLeafS} \cup {<<op, z, s>> : op \in FArith, s \in D1FS, z \in FLeafS}
+       \cup {<<"/", s, z>> : s \in D1FS, z \in {<<"v", "g">>, <<"v", "h">>, <<"ui", "7">>, <<"dd", "2.5">>}}
+       \cup {<<"/", z, NZF(s)>> : s \in FSub, z \in FLeafS}
+       \cup {<<op, s, u>> : op \in {"+", "-", "*"}, s \in FSub, u \in FSub} \cup {<<"/", s, NZF(u)>> : s \in FSub, u \in {<<"v", "f">>, <<"*", <<"v", "g">>, <<"v", "h">>>>}}
+       \cup {<<c, s, z>> : c \in ZCmp, s \in FSub, z \in FLeafS} \cup {<<c, z, s>> : c \in ZCmp, s \in FSub, z \in FLeafS} \cup {<<c, s, u>> : c \in {"<", "cmp"}, s \in FSub, u \in FSub}
+       \cup {<<c, x, y>> : c \in ZCmp, x \in FVar, y \in FLeaf}
+Trees == IF KIND = "z" THEN D1Z \cup Un1Z \cup D2Z ELSE IF KIND = "q" THEN D1Q \cup D2Q ELSE D1F \cup Un1F \cup D2F
 ASSUME \A t \in Trees : PrintT(<<"TREE", KIND, t>>)
 ASSUME PrintT(<<"CxxExpr", KIND, Cardinality(Trees)>>)
 VARIABLE dummy
